@@ -55,7 +55,10 @@ LABELS = {
     'GAM/binomial3/logit': ('GAM', {'distribution': 'binomial3', 'link': 'logit'}, 'binomial', 'logit', True),
     'GAM/gamma/inverse': ('GAM', {'distribution': 'gamma', 'link': 'inverse'}, 'gamma', 'inverse', False),
     'GAM/normal/log': ('GAM', {'distribution': 'normal', 'link': 'log'}, 'normal', 'log', False),
+    # only in the scale-event histories (the distribution parameter is replaced between fits)
+    'GAM/normal/identity': ('GAM', {'distribution': 'normal', 'link': 'identity'}, 'normal', 'identity', False),
 }
+EVENT_ONLY = {'GAM/normal/identity'}
 INCREASING = {'identity', 'log', 'logit'}
 MIXES = ['s0', 's0+l1', 's0+f2', 's0+s1by3', 'te01', 'te0f2+l1', 'te01by3+s0', 'cp0+f2d', 's0o1+s1o2', 'l0+l1', 'f2']
 QUICK_MIX = {'LinearGAM': MIXES, 'LinearGAM.known': MIXES}
@@ -180,12 +183,21 @@ class Fit:
         self.gam = gam
         self.cfg = cfg
         self.link = link
+        # "the scale is known" is a statement about what the USER asked for in the fit that produced these statistics: the
+        # public `scale` parameter of the classes that have one (never the distribution object's private bookkeeping, which
+        # is exactly the state that can go stale between two fits); for the generic GAM the harness says what it passed
+        if 'known' in cfg:
+            known = bool(cfg['known'])
+        elif 'scale' in gam.get_params():
+            known = gam.get_params()['scale'] is not None
         self.known = known
         self.levels = float(getattr(gam.distribution, 'levels', 1) or 1) if fam == 'binomial' else 1.0
         self.coef = np.asarray(gam.coef_, dtype=float).copy()
         self.cov = np.asarray(gam.statistics_['cov'], dtype=float).copy()
         self.edof = float(gam.statistics_['edof'])
         self.scale = float(gam.statistics_['scale'])
+        if 'scale' in gam.get_params() and gam.get_params()['scale'] is not None:
+            self.scale = float(gam.get_params()['scale'])        # a supplied scale IS the scale (prediction intervals add it)
         self.n = float(gam.statistics_['n_samples'])
         self.m = len(self.coef)
         self.blocks = {}
@@ -555,7 +567,7 @@ def check_models(ctx, P, prepared, stream=None):
                 ctx.fail(stream, sig, jsonable_case(cfg, it),
                          observed=dict(intervals=np.asarray(again[2]).tolist(), point=None if again[1] is None else np.asarray(again[1]).tolist()),
                          expected=dict(intervals=ob.tolist(), point=point.tolist(), levels=lv),
-                         oracle='bound = inverse link(lp + z_q sqrt(row^T cov row [+ scale])), z_q normal if scale known else t(n - edof); '
+                         oracle='bound = inverse link(lp + z_q sqrt(row^T cov row [+ scale])), z_q normal if the scale is known (named classes: the public scale parameter of the last fit is not None) else t(n - edof); '
                                 'pdep: full row zeroed outside the term block, link scale',
                          detail='worst error / tolerance = %.3g' % worst(again[2], ob, tol))
                 continue
@@ -686,6 +698,96 @@ def run_history(ctx, P, only=None):
         steps = run_one_history(P, hc, ctx.tier)
         for sp_ in steps:
             ctx.count('history-step', '%s/%s' % (hc['kind'], sp_['cfg'].get('tag')))
+        prepared += steps
+    check_models(ctx, P, prepared, stream=st)
+
+
+# ------------------------------------------------------------------------------------------------
+# scale events: the `scale` parameter of a fitted model is changed and the model is fitted again — the reference
+# distribution (normal / Student-t) and the scale added by prediction intervals are those of the LAST fit
+# ------------------------------------------------------------------------------------------------
+SCALE_LABELS = ['LinearGAM', 'GammaGAM', 'InvGaussGAM', 'ExpectileGAM.5', 'GAM/normal/identity']
+SCALE_KINDS = ['est->supplied', 'supplied->est', 'supplied->supplied', 'est->supplied->est']
+SCALE_HOW = ['set_params', 'attribute']
+
+
+def scale_event_cases(ctx):
+    """every (class, direction) every run — no draw decides whether a direction is exercised; the draw only varies the
+    term mix, n (30..45: Student-t and normal quantiles differ by percents) and the way the parameter is changed"""
+    out = []
+    h = 0
+    reps = 1 if ctx.tier == 'quick' else 3
+    for rep in range(reps):
+        for label in SCALE_LABELS:
+            for kind in SCALE_KINDS:
+                rng = common.random.Random('C09-scale-%d-%d' % (ctx.seed, h))
+                out.append(dict(h=h, seed=ctx.seed, stream='scale', label=label, kind=kind,
+                                mix=rng.choice(['s0', 's0+l1', 's0+f2', 'l0+l1']), n=rng.choice([30, 36, 45]),
+                                n2=rng.choice([None, None, 33, 42]), how=SCALE_HOW[(h + rep) % 2],
+                                factor=rng.choice([0.25, 0.5, 3.0])))
+                h += 1
+    return out
+
+
+def run_one_scale_history(P, hc, tier):
+    generic = hc['label'].startswith('GAM/')
+    label = hc['label']
+    base_idx = 700000 + 10 * hc['h']
+    ctor, kw0, fam, link, _ = LABELS[label]
+
+    def cfg_for(n, j, known):
+        c = make_cfg(hc['seed'], base_idx + 4 * j, label, hc['mix'], tier)      # + 4 j: the same response unit at every step
+        c.update(n=n, lam=0.6, ns=6, fit_intercept=True, nq=7, hist=hc)
+        if generic:
+            c['known'] = known
+        return c
+
+    c1 = cfg_for(hc['n'], 0, None)
+    X1, y1, Xq1 = gen_data(c1)
+    # supplied values in the units of the response (normal family: a variance; gamma / inverse Gaussian: dispersion)
+    v = {'normal': hc['factor'] * float(np.var(y1)), 'gamma': 0.2 * hc['factor'], 'inv_gauss': 0.05 * hc['factor']}[fam]
+    seq = {'est->supplied': [None, v], 'supplied->est': [v, None], 'supplied->supplied': [v, 4.0 * v],
+           'est->supplied->est': [None, v, None]}[hc['kind']]
+
+    def as_param(sc):
+        if not generic:
+            return dict(scale=sc)
+        from pygam.distributions import NormalDist
+        return dict(distribution='normal' if sc is None else NormalDist(scale=sc))
+
+    steps = []
+    try:
+        kw = dict(kw0)
+        kw.update(as_param(seq[0]))
+        gam = getattr(P, ctor)(make_terms(P, hc['mix'], 0.6, 6), fit_intercept=True, max_iter=200, tol=1e-6, **kw)
+        for j, sc in enumerate(seq):
+            cj = cfg_for(hc['n'] if (j == 0 or hc['n2'] is None) else hc['n2'], j, sc is not None)
+            Xj, yj, Xqj = gen_data(cj)
+            if j > 0:
+                if hc['how'] == 'set_params':
+                    gam.set_params(**as_param(sc))
+                else:
+                    for k_, v_ in as_param(sc).items():
+                        setattr(gam, k_, v_)
+            gam.fit(Xj, yj)
+            steps.append(history_step(gam, dict(cj, scale_param=sc), 'step%d:fit(scale=%s)' % (j, 'None' if sc is None else 'supplied'),
+                                      Xj, Xqj))
+    except Exception as e:                      # noqa: BLE001
+        steps.append(dict(cfg=dict(c1, tag='error'), error=type(e).__name__))
+    return steps
+
+
+def run_scale_events(ctx, P, only=None):
+    st = 'iv.scale-events'
+    ctx.stream(st, 'fit, change the public scale parameter (set_params / attribute; None -> value, value -> None, value -> 4 value, '
+                   'None -> value -> None), fit again, n = 30..45: CI, PI, pdep after EVERY fit vs z_q normal iff the scale '
+                   'parameter of that fit is not None (Student-t(n - edof) otherwise), PI adds the supplied scale')
+    prepared = []
+    for hc in scale_event_cases(ctx) if only is None else [only]:
+        steps = run_one_scale_history(P, hc, ctx.tier)
+        for sp_ in steps:
+            ctx.count('scale-event-step', '%s/%s' % (hc['kind'], sp_['cfg'].get('tag')))
+            ctx.count('scale-event-class', hc['label'])
         prepared += steps
     check_models(ctx, P, prepared, stream=st)
 
@@ -953,7 +1055,7 @@ def make_cfgs(ctx):
     rng = ctx.subrng('cfgs')
     cfgs = []
     idx = 0
-    labels = list(LABELS)
+    labels = [lab for lab in LABELS if lab not in EVENT_ONLY]
     reps = 1 if ctx.tier == 'quick' else 12
     for rep in range(reps):
         for lab in labels:
@@ -977,6 +1079,7 @@ def run(ctx):
     run_width(ctx, P, prepared, lits)
     run_reject(ctx, P, prepared, lits)
     run_history(ctx, P)
+    run_scale_events(ctx, P)
     run_large(ctx, P)
     run_ppf_contract(ctx, prepared)
     ctx.count('literals', ','.join(repr(v) for v in lits))
@@ -990,6 +1093,8 @@ def replay(ctx, rp):
     cfg = case.get('cfg')
     if not cfg:
         return run(ctx)
+    if cfg.get('hist') is not None and cfg['hist'].get('stream') == 'scale':
+        return run_scale_events(ctx, P, only=cfg['hist'])
     if cfg.get('hist') is not None:
         return run_history(ctx, P, only=cfg['hist'])
     if cfg.get('large') is not None:
